@@ -91,6 +91,9 @@ pub enum SpecVal {
     R(Rat),
     /// sign * sqrt(rational)
     Root(i32, Rat),
+    /// a value computed in f64 from exact central moments (long streams whose exact rational
+    /// would not fit in 128 bits); accurate to a few ulps, far inside every envelope
+    F(f64),
 }
 
 impl SpecVal {
@@ -114,6 +117,7 @@ impl SpecVal {
             SpecVal::NaN | SpecVal::Panic => f64::NAN,
             SpecVal::R(r) => r.to_f64(),
             SpecVal::Root(s, r) => (s as f64) * r.to_f64().sqrt(),
+            SpecVal::F(x) => x,
         }
     }
     pub fn is_zero(self) -> bool {
